@@ -1004,15 +1004,24 @@ func families(tier string) []fw.Family {
 	if tier != "thorough" {
 		// B: all ordered style pairs on every combination of views, two geometry pairings
 		pairings := [][2]int{{0, 2}, {4, 1}, {1, 3}, {2, 4}, {3, 0}}
-		radB := []int{nS, nS, nV, nV, len(pairings)}
+		radB := []int{nS, nS, nV, nV, len(pairings), nC}
 		progB := func(i int64) program {
 			g := oracle.Digits(i, radB...)
 			pr := pairings[g[4]]
-			return program{{path: pr[0], style: g[0], view: g[2], cs: 0}, {path: pr[1], style: g[1], view: g[3], cs: g[4] % 2}}
+			return program{{path: pr[0], style: g[0], view: g[2], cs: g[5]}, {path: pr[1], style: g[1], view: g[3], cs: g[4] % 2}}
 		}
-		fs = append(fs, fw.Family{Name: "B depth 2: style x style x view x view x 5 path pairings", N: oracle.Prod(radB...),
+		fs = append(fs, fw.Family{Name: "B depth 2: style x style x view x view x 5 path pairings x coordinate system of draw 1", N: oracle.Prod(radB...),
 			Check: func(i int64, r *fw.R) { checkProgram(r, progB(i), main3, i%3 == 0) },
 			Desc:  func(i int64) string { return progB(i).String() }})
+		// C: depth 3 on the caching axis alone: every style triple, identity views
+		radC := []int{nS, nS, nS}
+		progC := func(i int64) program {
+			g := oracle.Digits(i, radC...)
+			return program{{path: 0, style: g[0]}, {path: 2, style: g[1]}, {path: 4, style: g[2], cs: 1}}
+		}
+		fs = append(fs, fw.Family{Name: "C depth 3: style^3 (identity views)", N: oracle.Prod(radC...),
+			Check: func(i int64, r *fw.R) { checkProgram(r, progC(i), main3, i%5 == 0) },
+			Desc:  func(i int64) string { return progC(i).String() }})
 		return fs
 	}
 	// thorough
@@ -1049,7 +1058,7 @@ func Prop() *fw.Property {
 			"it must equal, operation by operation (count, order, region on the samples farther than 0.15 mm from the expected boundary, paint within 3/255) and after source-over compositing on 3840 sample points, the display list derived from the canvas's recorded layers by the rasterizer's semantics (fill = m·path under the fill rule; stroke = m·Stroke(Dash(path, dashes x width))). " +
 			"states = programs, transitions = draw calls, validated = (program, back-end) pairs compared; non-trivial = some expected region has decidable samples inside",
 		Assumptions: []string{
-			"menus: 26 styles (each one field away from a base style), 5 paths, 4 views, 2 coordinate systems, positions fixed per draw index; depth <= 2 (quick: styles^2 x views^2 x 5 path pairings) / full depth-2 product (1 081 600 programs) and styles^3 x views^2 at depth 3 (thorough)",
+			"menus: 26 styles (each one field away from a base style), 5 paths, 4 views, 2 coordinate systems, positions fixed per draw index; quick: depth 1 full product, depth 2 styles^2 x views^2 x 5 path pairings x 2, depth 3 styles^3 / full depth-2 product (1 081 600 programs) and styles^3 x views^2 at depth 3 (thorough)",
 			"natively emitted strokes are materialised from the PARSED parameters with canvas's own Dash/Stroke in user space and mapped through the parsed CTM (C04/C05 judge Dash/Stroke themselves); where a dashed closed subpath returns to its start with the pattern on at both ends, both readings (two caps / one dash running through with a join) are accepted",
 			"PostScript: geometry is compared relative to the %%BoundingBox (the absolute unit is checked once in family U); paints with alpha<1 and gradients are not compared for PS (alpha is documented as unsupported)",
 			"the rasterizer's pixels are compared with the expected list at the same points and tallied only (C14 owns the rasterizer)",
